@@ -25,9 +25,12 @@ Init ==
 
 OpEv ==
   /\ l <= Len(Ev) /\ Ev[l].e = "op"
+  /\ l' = l + 1
+  /\ UNCHANGED tr
   /\ LET o == Ev[l]
          x == SeqStep(m, o, o.preds, IsSet)
      IN
+     /\ m' = x.m
      /\ o.r.panic = x.panic
      /\ (x.panic = 0 /\ o.op \in PerKeyOps) => Matches(o, o.r, x.r, IsSet)
      /\ (x.panic = 0 /\ o.op = "compute") => o.ncb = (IF x.r.seen = 0 THEN 0 ELSE 1)
@@ -35,12 +38,11 @@ OpEv ==
      /\ (x.panic = 0) => WholeOk(m, o, o.r, o.preds, IsSet)
      /\ (x.panic = 1 /\ o.op \in {"retain", "retain_force"} /\ ~ForeignUse(o))
            => WholeOk(m, o, o.r, o.preds, IsSet)
-     /\ m' = x.m
-  /\ l' = l + 1
-  /\ UNCHANGED tr
 
 ObsEv ==
   /\ l <= Len(Ev) /\ Ev[l].e = "obs"
+  /\ l' = l + 1
+  /\ UNCHANGED <<tr, m>>
   /\ LET b == Ev[l]  n == Cardinality(PresentKeys(m)) IN
      /\ b.len = n
      /\ b.empty = B(n = 0)
@@ -51,8 +53,6 @@ ObsEv ==
           /\ g[1] \in DOMAIN m
           /\ g[2] = m[g[1]].tag
           /\ g[3] = m[g[1]].v
-  /\ l' = l + 1
-  /\ UNCHANGED <<tr, m>>
 
 Next == OpEv \/ ObsEv
 Spec == Init /\ [][Next]_vars
